@@ -233,6 +233,10 @@ class Gen(object):
             op["finish_inside"] = True
         elif style == "context" and self.cfg.get("join_after_scope") and st.choose(3, "join-after") == 2:
             op["join_after_scope"] = True
+        if style == "with" and self.cfg.get("foreign_finish") and st.choose(6, "foreign-finish") == 5:
+            # somebody else (a supervisor thread, another Context) finishes the action just before its owner
+            # leaves the with block; finish() is idempotent, the owner's exit then only restores its context
+            op["foreign_finish"] = ["thread", "ctx"][st.choose(2, "ff-how")]
         return op
 
     def spawn(self, depth):
